@@ -22,7 +22,8 @@ CONSTANTS Vals,      \* operand boundary set (units)
           Sim,       \* TRUE: random picks (simulation), FALSE: enumerate
           Feats,     \* features a behaviour may be dedicated to: operator names, "base", "mix"
           Excluded,  \* operators the "mix" behaviours must not use
-          Faults     \* set of fault kinds that may be injected ({} = none)
+          Faults,    \* set of fault kinds that may be injected ({} = none)
+          NGs        \* numbers of glyphs per font
 
 Pick(S) == IF Sim /\ S # {} THEN {RandomElement(S)} ELSE S
 MaxOf(S) == CHOOSE v \in S : \A q \in S : v >= q
@@ -41,8 +42,10 @@ VARIABLES m,       \* machine state
           dw, nw,  \* defaultWidthX, nominalWidthX
           fault,   \* "" or the kind of the injected fault
           fin,     \* program text complete
-          feat     \* the feature this behaviour is dedicated to
-vars == <<m, main, bodies, open, plan, nops, ncalls, ls, gs, dw, nw, fault, fin, feat>>
+          feat,    \* the feature the current glyph is dedicated to
+          glyphs,  \* the finished glyphs of this font (output records)
+          ng       \* number of glyphs of this font
+vars == <<m, main, bodies, open, plan, nops, ncalls, ls, gs, dw, nw, fault, fin, feat, glyphs, ng>>
 
 \* the INDEX sizes matter to behaviours with calls only (simulation varies them regardless)
 SizesFor(f, k) == IF Sim \/ f \in {"mix", "deep10"} \/ (f = "callsubr" /\ k = "l") \/ (f = "callgsubr" /\ k = "g")
@@ -53,7 +56,7 @@ NoPlan == [op |-> "", n |-> 0, ar |-> 0, bad |-> FALSE]
 Init == /\ m = M0 /\ main = <<>> /\ bodies = <<>> /\ open = <<>> /\ plan = NoPlan
         /\ nops = 0 /\ ncalls = 0 /\ fault = "" /\ fin = FALSE
         \* (TLC computes the initial states once, also in simulation: no random picks here)
-        /\ feat \in Feats /\ dw \in DWs /\ nw \in NWs
+        /\ feat \in Feats /\ dw \in DWs /\ nw \in NWs /\ glyphs = <<>> /\ ng \in NGs
         /\ ls \in SizesFor(feat, "l") /\ gs \in SizesFor(feat, "g")
 
 \* subroutine numbers worth calling: around the bias and the number-encoding thresholds
@@ -77,6 +80,7 @@ OpsNow ==
         \cup (IF feat \in MaskOps THEN {"hstem", "vstem"} ELSE {})) \cap GenOps \cap ClearOps
 ArithNow ==
   IF feat = "mix" THEN ArithOps \ Excluded
+  ELSE IF feat \in {"put", "get"} THEN BaseArith \cup {"put", "get"}   \* storage is observable only through both
   ELSE IF feat \in ArithOps THEN BaseArith \cup {feat}
   ELSE IF feat \in {"base"} \cup CallFeats THEN BaseArith ELSE {}
 KindsNow ==
@@ -130,7 +134,7 @@ ChoosePlan ==
           \E ar \in Pick(IF ArithNow = {} \/ (~Sim /\ nops > 0) THEN {0}
                          ELSE IF feat \in ArithOps THEN 1..MaxArith ELSE 0..MaxArith) :
             plan' = [op |-> op, n |-> n, ar |-> ar, bad |-> FALSE]
-  /\ UNCHANGED <<m, main, bodies, open, nops, ncalls, ls, gs, dw, nw, fault, fin, feat>>
+  /\ UNCHANGED <<m, main, bodies, open, nops, ncalls, ls, gs, dw, nw, fault, fin, feat, glyphs, ng>>
 
 \* ---- operands: a literal ...
 \* Enumeration keeps the state space small: both boundary values only for the last six operands
@@ -142,7 +146,7 @@ PushLit ==
   /\ \E v \in Pick(ValsNow) :
        /\ m' = Push(m, v) /\ Out(<<Num(v)>>)
   /\ plan' = [plan EXCEPT !.n = @ - 1]
-  /\ UNCHANGED <<open, nops, ncalls, ls, gs, dw, nw, fault, fin, feat>>
+  /\ UNCHANGED <<open, nops, ncalls, ls, gs, dw, nw, fault, fin, feat, glyphs, ng>>
 
 \* ---- ... or a short computation (arithmetic, stack, storage, conditional operators)
 FormsOf(A, B) ==
@@ -164,6 +168,9 @@ FormsOf(A, B) ==
             <<N(a), W(0), Op("put"), W(0), Op("get")>>,
             <<N(a), W(31), Op("put"), N(b), W(5), Op("put"), W(31), Op("get")>>,
             <<N(a), W(7), Op("put"), N(b), W(7), Op("put"), W(7), Op("get")>>,
+            \* reads of cells this charstring may not have written (indeterminate, see Type2Core)
+            <<N(a), W(9), Op("put"), W(0), Op("get")>>, <<W(31), Op("get")>>, <<W(5), Op("get"), Op("drop"), N(a)>>,
+            <<N(a), W(7), Op("get"), Op("add")>>,
             <<N(a), N(b), N(a), N(b), Op("ifelse")>>, <<N(a), N(b), N(b), N(a), Op("ifelse")>>,
             <<N(a), N(b), N(a), N(a), Op("ifelse")>>,
             <<N(a), N(b), N(0), Op("random"), Op("ifelse")>>,
@@ -196,7 +203,7 @@ PushArith ==
        /\ d \in {0, 1} /\ d <= plan.n
        /\ m' = m2 /\ Out(f)
        /\ plan' = [plan EXCEPT !.n = @ - d, !.ar = @ - 1]
-  /\ UNCHANGED <<open, nops, ncalls, ls, gs, dw, nw, fault, fin, feat>>
+  /\ UNCHANGED <<open, nops, ncalls, ls, gs, dw, nw, fault, fin, feat, glyphs, ng>>
 
 \* ---- the operator itself
 MaskFor(op) ==
@@ -216,7 +223,7 @@ ExecPlan ==
        /\ m' = m2 /\ Out(<<t>>)
        /\ fin' = (m2.st = "done")
   /\ plan' = NoPlan /\ nops' = nops + 1
-  /\ UNCHANGED <<open, ncalls, ls, gs, dw, nw, fault, feat>>
+  /\ UNCHANGED <<open, ncalls, ls, gs, dw, nw, fault, feat, glyphs, ng>>
 
 \* ---- subroutines: a call may happen anywhere, also between the operands of an operator
 Size(k) == IF k = "l" THEN ls ELSE gs
@@ -228,7 +235,7 @@ Call ==
                 Append(bodies, [k |-> k, i |-> i, toks |-> <<>>]))
        /\ open' = Append(open, Len(bodies) + 1)
   /\ ncalls' = ncalls + 1
-  /\ UNCHANGED <<m, plan, nops, ls, gs, dw, nw, fault, fin, feat>>
+  /\ UNCHANGED <<m, plan, nops, ls, gs, dw, nw, fault, fin, feat, glyphs, ng>>
 
 \* ten nested calls at once (the deepest legal nesting); the text continues in the innermost
 DeepCall ==
@@ -236,23 +243,54 @@ DeepCall ==
   /\ ncalls = 0 /\ open = <<>> /\ Len(m.stack) < MaxStack
   /\ (~Sim => main = <<>>)                       \* enumeration: at the start of the text only
   /\ \E k \in KindsNow :
-       LET C == CandIdx(Size(k)) IN
+       LET C == CandIdx(Size(k)) \ Used(k) IN
        /\ Cardinality(C) >= MaxDepth
        /\ LET idx == SetToSeq(C)
               call(j) == <<Num((idx[j] - Bias(Size(k))) * Unit), Op(CallOp(k))>>
           IN /\ main' = main \o call(1)
-             /\ bodies' = [j \in 1..MaxDepth |->
+             /\ bodies' = bodies \o [j \in 1..MaxDepth |->
                              [k |-> k, i |-> idx[j], toks |-> IF j < MaxDepth THEN call(j + 1) ELSE <<>>]]
-             /\ open' = [j \in 1..MaxDepth |-> j]
+             /\ open' = [j \in 1..MaxDepth |-> Len(bodies) + j]
   /\ ncalls' = MaxCalls
-  /\ UNCHANGED <<m, plan, nops, ls, gs, dw, nw, fault, fin, feat>>
+  /\ UNCHANGED <<m, plan, nops, ls, gs, dw, nw, fault, fin, feat, glyphs, ng>>
 
 Return ==
   /\ Running /\ open # <<>>
   /\ (~Sim /\ Len(open) > 1) => plan.op = ""    \* enumeration: nested returns at operator boundaries only
   /\ Out(<<Op("return")>>)
   /\ open' = SubSeq(open, 1, Len(open) - 1)
-  /\ UNCHANGED <<m, plan, nops, ncalls, ls, gs, dw, nw, fault, fin, feat>>
+  /\ UNCHANGED <<m, plan, nops, ncalls, ls, gs, dw, nw, fault, fin, feat, glyphs, ng>>
+
+(***************************************************************************)
+(* Fonts.  The law of TN5177 stated here: EVERY CHARSTRING IS EXECUTED ON A *)
+(* FRESH MACHINE (empty stack, no hints, width undecided, pen at the origin,*)
+(* no transient cell written, no call in progress).  NextGlyph closes the   *)
+(* finished glyph, keeps the font-level state only (the subroutine INDEXes  *)
+(* and the Private DICT widths) and resets everything else, so the meaning  *)
+(* TLC prints for glyph k is the meaning of its charstring alone, whatever  *)
+(* the other glyphs of the font executed (put, random, calls, hints, width).*)
+(***************************************************************************)
+OutTok(t) == IF t.op = "num" THEN t.v
+             ELSE IF t.op \in MaskOps THEN <<t.op, t.mask>> ELSE t.op
+OutToks(toks) == [i \in 1..Len(toks) |-> OutTok(toks[i])]
+GlyphRec ==
+  [main |-> OutToks(main), fault |-> fault, feat |-> feat, indet |-> m.indet,
+   verdict |-> IF fault = "" THEN "ok" ELSE "error",
+   exp |-> IF fault = "" THEN Meaning(m, dw, nw) ELSE [path |-> <<>>, hs |-> <<>>, vs |-> <<>>, width |-> 0]]
+Case ==
+  [glyphs |-> Append(glyphs, GlyphRec),
+   subrs |-> [j \in 1..Len(bodies) |-> [k |-> bodies[j].k, i |-> bodies[j].i, toks |-> OutToks(bodies[j].toks)]],
+   ls |-> ls, gs |-> gs, dw |-> dw, nw |-> nw, unit |-> Unit]
+Wanted == IF Faults = {} THEN fault = "" ELSE fault # ""
+Emit == (fin /\ Wanted /\ Len(glyphs) + 1 = ng) => PrintT(<<"CASE", ToJson(Case)>>)
+
+
+NextGlyph ==
+  /\ fin /\ fault = "" /\ m.st = "done" /\ Len(glyphs) + 1 < ng
+  /\ glyphs' = Append(glyphs, GlyphRec)
+  /\ m' = M0 /\ main' = <<>> /\ open' = <<>> /\ plan' = NoPlan /\ nops' = 0 /\ ncalls' = 0 /\ fin' = FALSE
+  /\ feat' \in (IF Sim THEN Pick(Feats) ELSE {feat})
+  /\ UNCHANGED <<bodies, ls, gs, dw, nw, fault, ng>>
 
 (***************************************************************************)
 (* Fault mode: exactly one fault, then the text is closed with endchar.    *)
@@ -264,7 +302,7 @@ Lits(n) == [i \in 1..n |-> Num(IF Sim THEN RandomElement(Vals) ELSE CHOOSE v \in
 Faulted(kind, toks) ==
   /\ Out(toks \o <<Op("endchar")>>)
   /\ m' = Err(m) /\ fault' = kind /\ fin' = TRUE /\ plan' = NoPlan
-  /\ UNCHANGED <<open, nops, ncalls, ls, gs, dw, nw, feat>>
+  /\ UNCHANGED <<open, nops, ncalls, ls, gs, dw, nw, feat, glyphs, ng>>
 
 AtBoundary == Running /\ plan.op = "" /\ m.stack = <<>>
 
@@ -285,7 +323,7 @@ FOverflow ==
 FNoEndchar ==
   /\ "noendchar" \in Faults /\ AtBoundary /\ open = <<>>
   /\ m' = Err(m) /\ fault' = "noendchar" /\ fin' = TRUE
-  /\ UNCHANGED <<main, bodies, open, plan, nops, ncalls, ls, gs, dw, nw, feat>>
+  /\ UNCHANGED <<main, bodies, open, plan, nops, ncalls, ls, gs, dw, nw, feat, glyphs, ng>>
 
 \* a subroutine number outside the INDEX (just below 0, just above size-1)
 FBadSubr ==
@@ -320,7 +358,7 @@ FDeep ==
           IN /\ main' = main \o call(1) \o <<Op("endchar")>>
              /\ bodies' = bodies \o nb
   /\ m' = Err(m) /\ fault' = "deep" /\ fin' = TRUE /\ plan' = NoPlan
-  /\ UNCHANGED <<open, nops, ncalls, ls, gs, dw, nw, feat>>
+  /\ UNCHANGED <<open, nops, ncalls, ls, gs, dw, nw, feat, glyphs, ng>>
 
 \* a mask with one byte too few at the end of the text: the endchar byte is taken as mask data
 FMaskShort ==
@@ -338,17 +376,19 @@ FPathUnderflow ==
 
 \* in simulation the fault is offered at one step in six, so that prefixes get long
 FaultGate(dummy) == ~Sim \/ RandomElement(1..6) = 1
-FaultStep == FaultGate(Len(main)) /\ (FUnderflow \/ FOverflow \/ FNoEndchar \/ FBadSubr \/ FDrawFirst \/ FDrawFirst0
+FaultStep == FaultGate(Len(main)) /\ Len(glyphs) + 1 = ng /\ (FUnderflow \/ FOverflow \/ FNoEndchar \/ FBadSubr \/ FDrawFirst \/ FDrawFirst0
              \/ FDeep \/ FMaskShort \/ FPathUnderflow)
 
 \* with Faults # {} a behaviour that finishes without a fault is not emitted; the generator
 \* makes the fault likely by offering it at every boundary
-Next == ChoosePlan \/ PushLit \/ PushArith \/ ExecPlan \/ Call \/ DeepCall \/ Return \/ FaultStep
+Next == ChoosePlan \/ PushLit \/ PushArith \/ ExecPlan \/ Call \/ DeepCall \/ Return \/ NextGlyph \/ FaultStep
 Spec == Init /\ [][Next]_vars
 
 (***************************************************************************)
 (* What TLC checks on the model.                                           *)
 (***************************************************************************)
+\* every charstring starts on the fresh machine, whatever the glyphs before it did
+FreshMachine == (main = <<>> /\ ~fin) => m = M0
 StackOK   == Len(m.stack) <= MaxStack
 DepthOK   == Len(open) <= MaxDepth
 StatusOK  == m.st \in {"run", "done", "error"}            \* never "unmodelled"
@@ -358,9 +398,10 @@ StageOK   == /\ m.stage \in 0..2
              /\ Len(m.hs) % 2 = 0 /\ Len(m.vs) % 2 = 0
 PathOK    == (m.path # <<>> /\ ~m.moved) =>
                \A i \in 1..Len(m.path) : m.path[i][1] \in {"hm", "cm"}
-StageMono == [][m'.stage >= m.stage]_vars
-WidthOnce == [][m.wset => (m'.wset /\ m'.w = m.w)]_vars
-MovedMono == [][m.moved => m'.moved]_vars
+\* (within one charstring: NextGlyph starts the next one on a fresh machine)
+StageMono == [][glyphs' = glyphs => m'.stage >= m.stage]_vars
+WidthOnce == [][(glyphs' = glyphs /\ m.wset) => (m'.wset /\ m'.w = m.w)]_vars
+MovedMono == [][(glyphs' = glyphs /\ m.moved) => m'.moved]_vars
 
 \* Executing the generated text from scratch (subroutine calls replaced by their bodies, using
 \* the bias rule to find them) gives the meaning the generator accumulated.
@@ -400,18 +441,5 @@ FaultIsError ==
 (***************************************************************************)
 (* Output for the replay binding.                                          *)
 (***************************************************************************)
-OutTok(t) == IF t.op = "num" THEN t.v
-             ELSE IF t.op \in MaskOps THEN <<t.op, t.mask>> ELSE t.op
-OutToks(toks) == [i \in 1..Len(toks) |-> OutTok(toks[i])]
-Case ==
-  [main |-> OutToks(main),
-   subrs |-> [j \in 1..Len(bodies) |-> [k |-> bodies[j].k, i |-> bodies[j].i, toks |-> OutToks(bodies[j].toks)]],
-   ls |-> ls, gs |-> gs, dw |-> dw, nw |-> nw, unit |-> Unit,
-   fault |-> fault, feat |-> feat,
-   verdict |-> IF fault = "" THEN "ok" ELSE "error",
-   exp |-> IF fault = "" THEN Meaning(m, dw, nw) ELSE [path |-> <<>>, hs |-> <<>>, vs |-> <<>>, width |-> 0]]
-Wanted == IF Faults = {} THEN fault = "" ELSE fault # ""
-Emit == (fin /\ Wanted) => PrintT(<<"CASE", ToJson(Case)>>)
-
 View == vars
 =============================================================================
